@@ -53,7 +53,7 @@ func (p *pingRec) NotifyPingComplete(other *ml.Node, rtt time.Duration, payload 
 
 type ackPayloader struct{ pl []byte }
 
-func (a *ackPayloader) AckPayload() []byte                                   { return a.pl }
+func (a *ackPayloader) AckPayload() []byte                                 { return a.pl }
 func (a *ackPayloader) NotifyPingComplete(*ml.Node, time.Duration, []byte) {}
 
 func payloadOf(n int, compressible bool) []byte {
